@@ -96,7 +96,10 @@ func c06R1(c *Ctx) {
 // c06BlobRemovalExclusive: in the methods of oci.Store, removing blobs
 // (storage.Delete, os.Remove) happens only with s.sync held exclusively,
 // locally or in every static caller (Delete -> delete).
-func c06BlobRemovalExclusive(c *Ctx, R string) {
+// c06StoreLockHeld returns a decision procedure: is <receiver>.sync held in
+// W mode at instruction `at` of method f of oci.Store — locally, or at every
+// static call site of f (transitively, unexported helpers only)?
+func c06StoreLockHeld(c *Ctx) func(f *ssa.Function, at ssa.Instruction, depth int) (bool, string) {
 	fns := c.P.FuncsOfPkg("content/oci")
 	heldC := map[*ssa.Function]map[ssa.Instruction]heldSet{}
 	held := func(f *ssa.Function) map[ssa.Instruction]heldSet {
@@ -145,6 +148,12 @@ func c06BlobRemovalExclusive(c *Ctx, R string) {
 		}
 		return true, ""
 	}
+	return holds
+}
+
+func c06BlobRemovalExclusive(c *Ctx, R string) {
+	fns := c.P.FuncsOfPkg("content/oci")
+	holds := c06StoreLockHeld(c)
 	n := 0
 	for _, f := range fns {
 		if f.Signature.Recv() == nil || !strings.HasSuffix(f.Signature.Recv().Type().String(), "content/oci.Store") {
@@ -172,6 +181,7 @@ func c06UnsafeStore(c *Ctx, R string) {
 		return
 	}
 	n := 0
+	holds := c06StoreLockHeld(c)
 	for _, f := range c05ModuleFuncs(c.P) {
 		var held map[ssa.Instruction]heldSet
 		AllInstrs(f, func(in ssa.Instruction) {
@@ -222,9 +232,20 @@ func c06UnsafeStore(c *Ctx, R string) {
 				return
 			}
 			lp := accessPath(inner) + ".sync"
-			ok = held[al][lp] >= modeW && escapes == ""
+			heldHere := func(at ssa.Instruction) bool {
+				if held[at][lp] >= modeW {
+					return true
+				}
+				// an unexported helper of the store: every caller holds the lock on the same store
+				if len(f.Params) > 0 && strip(inner) == ssa.Value(f.Params[0]) {
+					ok, _ := holds(f, at, 0)
+					return ok
+				}
+				return false
+			}
+			ok = heldHere(al) && escapes == ""
 			for _, u := range uses {
-				if held[u][lp] < modeW {
+				if !heldHere(u) {
 					ok = false
 				}
 			}
@@ -284,59 +305,110 @@ func c06ConstructionOnly(c *Ctx, R, name string) {
 
 // ---------------------------------------------------------------- R2 helpers
 
-// c06Wraps: every value v may denote is the sentinel, or an error constructed
-// from it (fmt.Errorf with the sentinel among its operands).
+// c06Wraps: every value v may denote is the sentinel, or an error that wraps
+// it so that errors.Is finds it: fmt.Errorf with the sentinel under a %w verb,
+// or an in-module error constructor all of whose results are such errors
+// (the sentinel may be handed to the constructor as an argument).
 func c06Wraps(fn *ssa.Function, v ssa.Value, sentinel string) bool {
-	set := map[ssa.Value]bool{}
-	AllInstrs(fn, func(in ssa.Instruction) {
-		if u, ok := in.(*ssa.UnOp); ok && sentinelOf(u) == sentinel {
-			set[u] = true
-		}
-	})
-	if len(set) == 0 {
-		return false
-	}
+	return c06WrapsV(v, func(x ssa.Value) bool { return sentinelOf(strip(x)) == sentinel }, 0)
+}
+
+func c06WrapsV(v ssa.Value, isSentinel func(ssa.Value) bool, depth int) bool {
 	rs := Roots(v)
-	if len(rs) == 0 {
+	if len(rs) == 0 || depth > 3 {
 		return false
 	}
 	for _, r := range rs {
-		if derivesFromAny(r, set, 0) {
+		r = strip(r)
+		if isSentinel(r) {
 			continue
 		}
-		if c06HelperWraps(r, sentinel, 0) {
+		call, ok := r.(*ssa.Call)
+		if !ok {
+			return false
+		}
+		if CalleeName(call) == "fmt.Errorf" {
+			if !c06ErrorfWraps(call, isSentinel, depth) {
+				return false
+			}
 			continue
 		}
-		return false
+		h := StaticCallee(call)
+		if h == nil || !inModule(h) || len(h.Blocks) == 0 {
+			return false
+		}
+		idx := ErrResultIndex(h.Signature)
+		if idx < 0 {
+			return false
+		}
+		inner := func(x ssa.Value) bool {
+			x = strip(x)
+			if p, isP := x.(*ssa.Parameter); isP {
+				for i, q := range h.Params {
+					if q == p && i < len(call.Call.Args) {
+						return c06WrapsV(call.Call.Args[i], isSentinel, depth+1)
+					}
+				}
+				return false
+			}
+			if u, isU := x.(*ssa.UnOp); isU {
+				if _, isG := u.X.(*ssa.Global); isG {
+					return isSentinel(x)
+				}
+			}
+			return false
+		}
+		atoms := RetAtoms(h, idx)
+		if len(atoms) == 0 {
+			return false
+		}
+		for _, a := range atoms {
+			if !c06WrapsV(a.Val, inner, depth+1) {
+				return false
+			}
+		}
 	}
 	return true
 }
 
-// c06HelperWraps: v is the result of an in-module error constructor all of
-// whose results wrap the sentinel (e.g. `return alreadyExists(key)`).
-func c06HelperWraps(v ssa.Value, sentinel string, depth int) bool {
-	call, ok := strip(v).(*ssa.Call)
-	if !ok || depth > 2 {
+// c06ErrorfWraps: fmt.Errorf(format, args...) with a constant format in which
+// an argument that is (or wraps) the sentinel sits under a %w verb.
+func c06ErrorfWraps(call *ssa.Call, isSentinel func(ssa.Value) bool, depth int) bool {
+	format, ok := constString(call.Call.Args[0])
+	if !ok {
 		return false
 	}
-	g := StaticCallee(call)
-	if g == nil || !inModule(g) || len(g.Blocks) == 0 {
-		return false
-	}
-	idx := ErrResultIndex(g.Signature)
-	if idx < 0 {
-		return false
-	}
-	atoms := RetAtoms(g, idx)
-	if len(atoms) == 0 {
-		return false
-	}
-	for _, a := range atoms {
-		if !c06Wraps(g, a.Val, sentinel) {
-			return false
+	var verbs []byte
+	for i := 0; i < len(format); i++ {
+		if format[i] != '%' {
+			continue
+		}
+		i++
+		for i < len(format) && strings.IndexByte("+-# 0123456789.*[]", format[i]) >= 0 {
+			i++
+		}
+		if i < len(format) && format[i] != '%' {
+			verbs = append(verbs, format[i])
 		}
 	}
-	return true
+	elems := c05VariadicElems(variadicArg(call))
+	for i, e := range elems {
+		if i >= len(verbs) || verbs[i] != 'w' {
+			continue
+		}
+		if isSentinel(strip(e)) || c06WrapsV(e, isSentinel, depth+1) {
+			return true
+		}
+	}
+	return false
+}
+
+// c06HelperWraps is kept for callers that only need the constructor case.
+func c06HelperWraps(v ssa.Value, sentinel string, depth int) bool {
+	if _, ok := strip(v).(*ssa.Call); !ok {
+		return false
+	}
+	return c06WrapsV(v, func(x ssa.Value) bool { return sentinelOf(strip(x)) == sentinel }, depth)
 }
 
 type c06Ret struct {
@@ -444,64 +516,76 @@ func c06Fn(c *Ctx, R, pkg, name string) *ssa.Function {
 
 func c06R2Memory(c *Ctx) {
 	const R = "C06.R2.refuse-before-mutate"
-	c.Expect(R, 36) // 38 on the pinned tree; the fast pre-check in cas.Memory.Push is optional
+	c.Expect(R, 36) // 38 on the pinned tree
 	fn := c06Fn(c, R, "internal/cas", "Memory.Push")
 	if fn == nil {
 		return
 	}
 	tn := FnName(fn)
+	onMap := func(call ssa.CallInstruction) bool {
+		a := call.Common().Args
+		return len(a) > 0 && c05IsFieldAddrOf(a[0], "~/internal/cas.Memory", "content")
+	}
+	// instructions of Push that write the map, directly or through a helper
 	var writers []ssa.Instruction
-	var loads, los []ssa.CallInstruction
-	for _, u := range c05FieldUses([]*ssa.Function{fn}, "~/internal/cas.Memory", "content") {
-		call, ok := u.Use.(ssa.CallInstruction)
-		if !ok {
-			continue
+	for _, call := range Calls(fn, func(string) bool { return true }) {
+		n := CalleeName(call)
+		if onMap(call) && (c05SyncMapWriters[n] || c05SyncMapRemovers[n]) {
+			writers = append(writers, call.(ssa.Instruction))
+		} else if h := c05Helper(call, fn); h != nil && reachesCall(h, 2, func(n string, cc ssa.CallInstruction) bool {
+			return onMap(cc) && (c05SyncMapWriters[n] || c05SyncMapRemovers[n])
+		}) {
+			writers = append(writers, call.(ssa.Instruction))
 		}
-		switch n := CalleeName(call); {
-		case n == "(*sync.Map).LoadOrStore":
-			los = append(los, call)
-			writers = append(writers, call.(ssa.Instruction))
-		case c05SyncMapWriters[n] || c05SyncMapRemovers[n]:
-			writers = append(writers, call.(ssa.Instruction))
-		case n == "(*sync.Map).Load":
-			loads = append(loads, call)
+	}
+	resultFact := func(method string, idx int) c05BoolFact {
+		return func(g *ssa.Function) (te, fe []Edge, isVal func(ssa.Value) bool) {
+			vals := map[ssa.Value]bool{}
+			for _, call := range CallsTo(g, method) {
+				if !onMap(call) {
+					continue
+				}
+				if r := ResultOf(call, idx); r != nil {
+					for a := range Aliases(r) {
+						vals[a] = true
+					}
+				}
+			}
+			te, fe = BoolTests(g, vals)
+			return te, fe, func(v ssa.Value) bool { return vals[v] }
 		}
 	}
 	// fast check (optional optimisation): if present it must refuse correctly
-	for _, ld := range loads {
-		if ex := ResultOf(ld, 1); ex != nil {
-			te, _ := BoolTests(fn, Aliases(ex))
-			if len(te) == 0 {
-				continue
+	if present, _ := c05BoolEdges(fn, resultFact("(*sync.Map).Load", 1), 0); len(present) > 0 {
+		ok, why := c06Refusal(c, fn, present, "~/errdef.ErrAlreadyExists", writers)
+		c.Check(R, tn+"|fast-check-refuses", fn.Pos(), ok, why)
+	}
+	nLOS := 0
+	for _, e := range c05TreeEnvs(c05Root(fn), 3) {
+		for _, call := range CallsTo(e.Fn, "(*sync.Map).LoadOrStore") {
+			if onMap(call) {
+				nLOS++
+				if ResultOf(call, 1) == nil {
+					c.Violation(R, tn+"|loaded-branch-refuses", call.Pos(), "the `loaded` result of LoadOrStore is discarded: a push of existing content reports success")
+				}
 			}
-			ok, why := c06Refusal(c, fn, te, "~/errdef.ErrAlreadyExists", writers)
-			c.Check(R, tn+"|fast-check-refuses", ld.Pos(), ok, why)
 		}
 	}
-	if len(los) == 0 {
-		c.Undecided(R, tn+"|loaded-branch-refuses", fn.Pos(), "Push no longer publishes with LoadOrStore: the atomic refuse-or-store step is not recognised")
+	if nLOS == 0 {
+		c.Undecided(R, tn+"|loaded-branch-refuses", fn.Pos(), "Push no longer publishes with LoadOrStore (neither itself nor in a helper): the atomic refuse-or-store step is not recognised")
 		return
 	}
-	var stored []Edge
-	for _, lo := range los {
-		ld := ResultOf(lo, 1)
-		if ld == nil {
-			c.Violation(R, tn+"|loaded-branch-refuses", lo.Pos(), "the `loaded` result of LoadOrStore is discarded: a push of existing content reports success")
-			continue
-		}
-		te, fe := BoolTests(fn, Aliases(ld))
-		stored = append(stored, fe...)
-		ok, why := c06Refusal(c, fn, te, "~/errdef.ErrAlreadyExists", nil)
-		c.Check(R, tn+"|loaded-branch-refuses", lo.Pos(), ok, why)
-	}
-	ok := true
+	loaded, stored := c05BoolEdges(fn, resultFact("(*sync.Map).LoadOrStore", 1), 0)
+	ok, why := c06Refusal(c, fn, loaded, "~/errdef.ErrAlreadyExists", nil)
+	c.Check(R, tn+"|loaded-branch-refuses", fn.Pos(), ok, why)
+	ok2 := len(stored) > 0
 	for _, a := range c05MaybeNilAtoms(fn) {
 		if !c05AtomMustPass(a, newCut().Edges(stored...)) {
-			ok = false
+			ok2 = false
 		}
 	}
-	c.Check(R, tn+"|nil-only-when-stored", fn.Pos(), ok,
-		ifelse(ok, "every nil return lies behind the loaded==false edge of LoadOrStore", "Push can return nil although LoadOrStore did not store (existing content reported as freshly pushed)"))
+	c.Check(R, tn+"|nil-only-when-stored", fn.Pos(), ok2,
+		ifelse(ok2, "every nil return lies behind the loaded==false edge of LoadOrStore", "Push can return nil although LoadOrStore did not store (existing content reported as freshly pushed)"))
 }
 
 // ---------------------------------------------------------------- R2: oci.Storage.Push
@@ -515,12 +599,19 @@ func c06R2OCIStorage(c *Ctx) {
 	tn := FnName(fn)
 	isCreate := func(n string) bool { return c05Creators[n] && n != "os.MkdirAll" && n != "os.Mkdir" }
 	effects := c06FsEffectCalls(fn, isCreate)
-	renames := CallsTo(fn, "os.Rename")
-	if len(renames) == 0 {
-		c.LostAnchor(R, tn+": os.Rename")
+	// the publication target: destination of the rename in Push or in a helper it calls
+	var target ssa.Value
+	for _, e := range c05TreeEnvs(c05Root(fn), 3) {
+		for _, rn := range CallsTo(e.Fn, "os.Rename") {
+			if w, at := e.up(rn.Common().Args[1]); at.isRoot() {
+				target = w
+			}
+		}
+	}
+	if target == nil {
+		c.LostAnchor(R, tn+": os.Rename whose destination is computed in Push")
 		return
 	}
-	target := renames[0].Common().Args[1]
 	var hit []Edge
 	var stat ssa.CallInstruction
 	for _, sc := range CallsTo(fn, "os.Stat", "os.Lstat") {
@@ -554,11 +645,11 @@ func c06R2OCIStorage(c *Ctx) {
 func c06R2File(c *Ctx) {
 	const R = "C06.R2.refuse-before-mutate"
 	isFs := func(n string) bool { return fsMutators[n] && n != "(*os.File).Close" }
-	for _, name := range []string{"Store.push", "Store.Add"} {
-		fn := c06Fn(c, R, "content/file", name)
-		if fn == nil {
-			continue
-		}
+	writers := c05ExistsWriters(c, false)
+	if len(writers) < 2 {
+		c.LostAnchor(R, "functions of ~/content/file that claim a name (Push side and Add)")
+	}
+	for _, fn := range writers {
 		tn := FnName(fn)
 		effects := c06FsEffectCalls(fn, isFs)
 		// also calls that record digests (Add computes and records without fs mutation for plain files)
@@ -577,13 +668,26 @@ func c06R2File(c *Ctx) {
 				}
 			}
 		}
-		var dupE, freeE []Edge
+		// "the name is already claimed": a test of nameStatus.exists, here or in a boolean helper
+		claimed := func(g *ssa.Function) (te, fe []Edge, isVal func(ssa.Value) bool) {
+			isLoad := func(v ssa.Value) bool {
+				u, ok := v.(*ssa.UnOp)
+				return ok && u.Op == token.MUL && c05IsFieldAddrOf(u.X, "~/content/file.nameStatus", "exists")
+			}
+			for _, i := range Ifs(g) {
+				cond, t, f := ifEdges(i)
+				if isLoad(cond) {
+					te, fe = append(te, t), append(fe, f)
+				}
+			}
+			return te, fe, isLoad
+		}
+		dupE, freeE := c05BoolEdges(fn, claimed, 0)
+		// the per-name lock: receivers of Lock() on a nameStatus
 		statusBases := map[string]bool{}
-		for _, i := range Ifs(fn) {
-			cond, t, f := ifEdges(i)
-			if u, ok := cond.(*ssa.UnOp); ok && u.Op == token.MUL && c05IsFieldAddrOf(u.X, "~/content/file.nameStatus", "exists") {
-				dupE, freeE = append(dupE, t), append(freeE, f)
-				statusBases[accessPath(u.X.(*ssa.FieldAddr).X)] = true
+		for _, call := range CallsTo(fn, "(*sync.RWMutex).Lock", "(*sync.Mutex).Lock") {
+			if fa, ok := call.Common().Args[0].(*ssa.FieldAddr); ok && strings.HasPrefix(fieldName(fa.X.Type(), fa.Field), "~/content/file.nameStatus.") {
+				statusBases[accessPath(fa.X)] = true
 			}
 		}
 		ok, why := c06Refusal(c, fn, dupE, "~/content/file.ErrDuplicateName", effects)
@@ -612,8 +716,7 @@ func c06R2File(c *Ctx) {
 		}
 		c.Check(R, tn+"|effects-under-name-lock", fn.Pos(), ok3, ifelse(ok3, "the per-name lock is held in W mode from the duplicate check through every content effect", bad3))
 	}
-	c05ExistsAfterSuccess(c, R, "(*~/content/file.Store).Add")
-	c05ExistsAfterSuccess(c, R, "(*~/content/file.Store).push")
+	c05ExistsAfterSuccess(c, R, c05ExistsWriters(c, false))
 }
 
 // ---------------------------------------------------------------- R2: Tag
@@ -621,62 +724,133 @@ func c06R2File(c *Ctx) {
 func c06R2Tag(c *Ctx) {
 	const R = "C06.R2.refuse-before-mutate"
 	type t struct{ pkg, name string }
+	isTagEffect := func(n string) bool {
+		return n == "(~/content.Tagger).Tag" || n == "(*~/internal/resolver.Memory).Tag" || n == "(~/content.TagResolver).Tag"
+	}
 	for _, x := range []t{{"content/memory", "Store.Tag"}, {"content/oci", "Store.Tag"}, {"content/file", "Store.Tag"}} {
 		fn := c06Fn(c, R, x.pkg, x.name)
 		if fn == nil {
 			continue
 		}
 		tn := FnName(fn)
-		var descParam *ssa.Parameter
-		for _, p := range fn.Params {
-			if c05IsOCIDescriptor(p.Type()) {
-				descParam = p
-			}
-		}
-		var exists []ssa.CallInstruction
-		var tags []ssa.Instruction
-		for _, call := range Calls(fn, func(string) bool { return true }) {
-			if _, isDefer := call.(*ssa.Defer); isDefer {
-				continue
-			}
-			n := CalleeName(call)
-			switch {
-			case strings.HasSuffix(n, ").Exists"):
+		descParam := c07DescParam(fn)
+		root := c05Root(fn)
+		envs := c05TreeEnvs(root, 3)
+		// existence checks of the descriptor being tagged, at any level of the call tree
+		existsIn := func(e *c05Env) []ssa.CallInstruction {
+			var out []ssa.CallInstruction
+			for _, call := range Calls(e.Fn, func(n string) bool { return strings.HasSuffix(n, ").Exists") }) {
+				if _, isDefer := call.(*ssa.Defer); isDefer {
+					continue
+				}
 				for _, a := range call.Common().Args {
-					if c05IsOCIDescriptor(a.Type()) && c05ParamOf(a) == descParam && descParam != nil {
-						exists = append(exists, call)
+					if c05IsOCIDescriptor(a.Type()) && descParam != nil {
+						if w, at := e.up(a); at.isRoot() && c05ParamOf(w) == descParam {
+							out = append(out, call)
+						}
 					}
 				}
-			case n == "(~/content.Tagger).Tag", n == "(*~/internal/resolver.Memory).Tag", n == "(*~/content/oci.Store).tag":
-				tags = append(tags, call.(ssa.Instruction))
 			}
+			return out
 		}
-		if len(exists) == 0 || len(tags) == 0 {
-			c.Violation(R, tn+"|tag-only-existing-content", fn.Pos(), ifelse(len(exists) == 0, "Tag no longer checks that the described content exists", "Tag no longer reaches the tag resolver"))
-			continue
-		}
-		var present, absent []Edge
-		for _, ex := range exists {
-			if v := ResultOf(ex, 0); v != nil {
-				te, fe := BoolTests(fn, Aliases(v))
-				present, absent = append(present, te...), append(absent, fe...)
+		present := c05PassSpec{Success: true, Edges: func(e *c05Env) []Edge {
+			var out []Edge
+			for _, ex := range existsIn(e) {
+				if v := ResultOf(ex, 0); v != nil {
+					te, _ := BoolTests(e.Fn, Aliases(v))
+					out = append(out, te...)
+				}
 			}
-		}
+			return out
+		}}
+		noErr := c05PassSpec{Success: true, Edges: func(e *c05Env) []Edge {
+			var out []Edge
+			for _, ex := range existsIn(e) {
+				out = append(out, c05NilEdgesOf(ex)...)
+			}
+			return out
+		}}
+		nExists, nTags := 0, 0
+		var firstExists, firstTag token.Pos
 		ok := true
-		for _, tg := range tags {
-			if !MustPass(tg, newCut().Edges(present...)) {
-				ok = false
+		effectsAt := map[*c05Env][]ssa.Instruction{}
+		for _, e := range envs {
+			if ex := existsIn(e); len(ex) > 0 {
+				nExists += len(ex)
+				if !firstExists.IsValid() || e.isRoot() {
+					firstExists = ex[0].Pos()
+				}
 			}
-			for _, ex := range exists {
-				if !MustPass(tg, newCut().Edges(c05NilEdgesOf(ex)...)) {
-					ok = false
+			for _, call := range Calls(e.Fn, isTagEffect) {
+				if _, isDefer := call.(*ssa.Defer); isDefer {
+					continue
+				}
+				nTags++
+				if !firstTag.IsValid() || e.isRoot() {
+					firstTag = call.Pos()
+				}
+				for _, sp := range []c05PassSpec{present, noErr} {
+					dominated := false
+					var tgt ssa.Instruction = call.(ssa.Instruction)
+					for lv := e; lv != nil; lv = lv.Parent {
+						ct := c05PassCut(lv, sp)
+						if (len(ct.edges) > 0 || len(ct.instrs) > 0) && MustPass(tgt, ct) {
+							dominated = true
+						}
+						if lv.Call == nil {
+							break
+						}
+						tgt = lv.Call.(ssa.Instruction)
+					}
+					if !dominated {
+						ok = false
+					}
+				}
+				var tgt ssa.Instruction = call.(ssa.Instruction)
+				for lv := e; lv != nil; lv = lv.Parent {
+					effectsAt[lv] = append(effectsAt[lv], tgt)
+					if lv.Call == nil {
+						break
+					}
+					tgt = lv.Call.(ssa.Instruction)
 				}
 			}
 		}
-		c.Check(R, tn+"|tag-only-existing-content", tags[0].Pos(), ok,
+		if nExists == 0 || nTags == 0 {
+			c.Violation(R, tn+"|tag-only-existing-content", fn.Pos(), ifelse(nExists == 0, "Tag no longer checks that the described content exists (neither itself nor in a helper it calls)", "Tag no longer reaches the tag resolver"))
+			continue
+		}
+		c.Check(R, tn+"|tag-only-existing-content", firstTag, ok,
 			ifelse(ok, "the resolver's Tag lies behind Exists()==true with a nil error", "a reference can be tagged although the content's existence was not established (Resolve would name content that Fetch cannot deliver)"))
-		ok2, why := c06Refusal(c, fn, absent, "~/errdef.ErrNotFound", tags)
-		c.Check(R, tn+"|absent-content-is-not-found", exists[0].Pos(), ok2, why)
+		ok2, why := true, "absent content yields an error wrapping ErrNotFound and reaches no tag effect"
+		nRefusals := 0
+		for _, e := range envs {
+			var absent []Edge
+			for _, ex := range existsIn(e) {
+				if v := ResultOf(ex, 0); v != nil {
+					_, fe := BoolTests(e.Fn, Aliases(v))
+					absent = append(absent, fe...)
+				}
+			}
+			if len(absent) == 0 {
+				continue // the answer is merely forwarded at this level
+			}
+			nRefusals++
+			if o, w := c06Refusal(c, e.Fn, absent, "~/errdef.ErrNotFound", effectsAt[e]); !o {
+				ok2, why = false, w
+			}
+			for lv := e; lv.Parent != nil && lv.Call != nil; lv = lv.Parent {
+				if ErrOf(lv.Call) == nil {
+					ok2, why = false, "the verdict of "+FnName(lv.Fn)+" is discarded"
+				} else if r := ErrFlow(lv.Call, ErrFlowOpts{}); !r.OK {
+					ok2, why = false, r.Detail
+				}
+			}
+		}
+		if nRefusals == 0 {
+			ok2, why = false, "the result of the existence check is never tested"
+		}
+		c.Check(R, tn+"|absent-content-is-not-found", firstExists, ok2, why)
 	}
 }
 
@@ -706,7 +880,7 @@ func c06R2Resolve(c *Ctx) {
 		ok, why := c06Refusal(c, fn, missing, "~/errdef.ErrNotFound", nil)
 		c.Check(R, FnName(fn)+"|unknown-reference-is-not-found", fn.Pos(), ok, why)
 	}
-	// the stores hand the resolver's verdict on
+	// the stores hand the resolver's verdict on (Resolve itself or a helper it delegates to)
 	type t struct {
 		pkg, name string
 		tol       []string
@@ -716,30 +890,43 @@ func c06R2Resolve(c *Ctx) {
 		if f == nil {
 			continue
 		}
-		calls := Calls(f, func(n string) bool { return n == "(~/content.Resolver).Resolve" || n == "(*~/internal/resolver.Memory).Resolve" })
-		if len(calls) == 0 {
-			c.Violation(R, FnName(f)+"|resolver-verdict-returned", f.Pos(), "Resolve no longer consults the tag resolver")
-			continue
-		}
-		for _, call := range calls {
-			r := ErrFlow(call, ErrFlowOpts{Tolerated: x.tol})
-			okTol := true
-			detail := r.How + r.Detail
-			if r.OK && len(x.tol) > 0 {
-				// the tolerated branch (blob lookup by digest) must itself end in resolveBlob's verdict
-				al := Aliases(ErrOf(call))
-				for _, e := range toleratedEdges(f, al, x.tol) {
-					for _, rt := range c06ReturnsFrom(f, e, nil) {
-						for _, v := range rt.Vals {
-							if ErrNilStatus(v, 0) == IsNil {
-								okTol = false
-								detail = "after ErrNotFound from the tag resolver a path returns nil without consulting the blob store"
+		n := 0
+		for _, e := range c05TreeEnvs(c05Root(f), 3) {
+			g := e.Fn
+			for _, call := range Calls(g, func(n string) bool {
+				return n == "(~/content.Resolver).Resolve" || n == "(*~/internal/resolver.Memory).Resolve"
+			}) {
+				n++
+				r := ErrFlow(call, ErrFlowOpts{Tolerated: x.tol})
+				okTol := true
+				detail := r.How + r.Detail
+				if r.OK && len(x.tol) > 0 {
+					// the tolerated branch (blob lookup by digest) must itself end in resolveBlob's verdict
+					al := Aliases(ErrOf(call))
+					for _, te := range toleratedEdges(g, al, x.tol) {
+						for _, rt := range c06ReturnsFrom(g, te, nil) {
+							for _, v := range rt.Vals {
+								if ErrNilStatus(v, 0) == IsNil {
+									okTol = false
+									detail = "after ErrNotFound from the tag resolver a path returns nil without consulting the blob store"
+								}
 							}
 						}
 					}
 				}
+				// the helper's verdict must reach Resolve's caller
+				for lv := e; lv.Parent != nil && lv.Call != nil; lv = lv.Parent {
+					if ErrOf(lv.Call) == nil {
+						okTol, detail = false, "the result of "+FnName(lv.Fn)+" is discarded"
+					} else if rr := ErrFlow(lv.Call, ErrFlowOpts{}); !rr.OK {
+						okTol, detail = false, rr.Detail
+					}
+				}
+				c.Check(R, FnName(f)+"|resolver-verdict-returned", call.Pos(), r.OK && okTol, detail)
 			}
-			c.Check(R, FnName(f)+"|resolver-verdict-returned", call.Pos(), r.OK && okTol, detail)
+		}
+		if n == 0 {
+			c.Violation(R, FnName(f)+"|resolver-verdict-returned", f.Pos(), "Resolve no longer consults the tag resolver")
 		}
 	}
 }
@@ -857,8 +1044,7 @@ func c06R2EmptyRef(c *Ctx) {
 	const R = "C06.R2.refuse-before-mutate"
 	type t struct{ pkg, name string }
 	touch := func(n string) bool {
-		return hasPrefixAny(n, "(~/content.Resolver).", "(~/content.Tagger).", "(*~/internal/resolver.Memory).", "(~/content.TagResolver).") ||
-			n == "(*~/content/oci.Store).tag" || n == "(*~/content/oci.Store).saveIndex"
+		return hasPrefixAny(n, "(~/content.Resolver).", "(~/content.Tagger).", "(*~/internal/resolver.Memory).", "(~/content.TagResolver).")
 	}
 	for _, x := range []t{{"content/file", "Store.Resolve"}, {"content/file", "Store.Tag"}, {"content/oci", "Store.Resolve"}, {"content/oci", "Store.Tag"}, {"content/oci", "Store.Untag"}, {"content/oci", "ReadOnlyStore.Resolve"}} {
 		fn := c06Fn(c, R, x.pkg, x.name)
@@ -876,25 +1062,74 @@ func c06R2EmptyRef(c *Ctx) {
 			c.LostAnchor(R, tn+": reference parameter")
 			continue
 		}
-		nonEmpty, empty, via := c06EmptyGuards(c, fn, ref)
-		var touches []ssa.Instruction
-		for _, call := range Calls(fn, touch) {
-			if _, isDefer := call.(*ssa.Defer); !isDefer {
-				touches = append(touches, call.(ssa.Instruction))
+		root := c05Root(fn)
+		envs := c05TreeEnvs(root, 3)
+		// the reference as seen at each level of the call tree
+		localRef := func(e *c05Env) *ssa.Parameter {
+			if e.isRoot() {
+				return ref
+			}
+			for _, q := range e.Fn.Params {
+				if w, at := e.up(q); at.isRoot() && w == ssa.Value(ref) {
+					return q
+				}
+			}
+			return nil
+		}
+		type guard struct {
+			nonEmpty, empty []Edge
+			via             string
+		}
+		guards := map[*c05Env]guard{}
+		for _, e := range envs {
+			if q := localRef(e); q != nil {
+				ne, em, via := c06EmptyGuards(c, e.Fn, q)
+				guards[e] = guard{ne, em, via}
 			}
 		}
-		ok := len(nonEmpty) > 0 && len(touches) > 0
-		bad := "the empty reference is no longer rejected"
-		for _, tc := range touches {
-			if !MustPass(tc, newCut().Edges(nonEmpty...)) {
-				ok, bad = false, "the tag state is consulted/modified at "+c.P.Pos(tc.Pos())+" although the reference may be empty"
+		nt := 0
+		ok, bad, via := true, "the empty reference is no longer rejected", ""
+		touchesAt := map[*c05Env][]ssa.Instruction{}
+		for _, e := range envs {
+			for _, call := range Calls(e.Fn, touch) {
+				if _, isDefer := call.(*ssa.Defer); isDefer {
+					continue
+				}
+				nt++
+				// every level up to the root sees this access through the call that leads to it
+				var tgt ssa.Instruction = call.(ssa.Instruction)
+				dominated := false
+				for lv := e; lv != nil; lv = lv.Parent {
+					touchesAt[lv] = append(touchesAt[lv], tgt)
+					if g, has := guards[lv]; has && len(g.nonEmpty) > 0 && MustPass(tgt, newCut().Edges(g.nonEmpty...)) {
+						dominated = true
+						via = g.via
+					}
+					if lv.Call == nil {
+						break
+					}
+					tgt = lv.Call.(ssa.Instruction)
+				}
+				if !dominated {
+					ok, bad = false, "the tag state is consulted/modified at "+c.P.Pos(call.Pos())+" although the reference may be empty"
+				}
 			}
 		}
-		if ok && len(empty) > 0 {
-			ok, bad = c06Refusal(c, fn, empty, "~/errdef.ErrMissingReference", touches)
+		if nt == 0 {
+			ok, bad = false, "the operation no longer touches the tag state (anchor shape lost)"
+		}
+		if ok {
+			for e, g := range guards {
+				if len(g.empty) == 0 {
+					continue
+				}
+				if ok2, why := c06Refusal(c, e.Fn, g.empty, "~/errdef.ErrMissingReference", touchesAt[e]); !ok2 {
+					ok, bad = false, why
+				}
+			}
 		}
 		c.Check(R, tn+"|empty-reference-rejected-first", fn.Pos(), ok,
-			ifelse(ok, fmt.Sprintf("%d tag-state access(es) lie behind the non-empty edge (%s); \"\" yields ErrMissingReference", len(touches), via), bad))
+			ifelse(ok, fmt.Sprintf("%d tag-state access(es) lie behind the non-empty edge (%s); \"\" yields ErrMissingReference", nt, via), bad))
 	}
 }
 
@@ -1000,6 +1235,7 @@ var c06Mutants = []Mutant{
 	{Name: "file-push-releases-name-lock-while-writing", File: "content/file/file.go", Old: "\tif needUnpack := expected.Annotations[AnnotationUnpack]; needUnpack == \"true\" && !s.SkipUnpack {\n\t\terr = s.pushDir(name, target, expected, content)\n\t} else {\n\t\terr = s.pushFile(target, expected, content)\n\t}\n", New: "\tstatus.Unlock()\n\tif needUnpack := expected.Annotations[AnnotationUnpack]; needUnpack == \"true\" && !s.SkipUnpack {\n\t\terr = s.pushDir(name, target, expected, content)\n\t} else {\n\t\terr = s.pushFile(target, expected, content)\n\t}\n\tstatus.Lock()\n", Expect: "C06.R2.refuse-before-mutate|(*~/content/file.Store).push|effects-under-name-lock"},
 	// R2
 	{Name: "memory-existing-reported-as-pushed", File: "internal/cas/memory.go", Old: "\tif _, exists := m.content.LoadOrStore(key, value); exists {\n\t\treturn fmt.Errorf(\"%s: %s: %w\", key.Digest, key.MediaType, errdef.ErrAlreadyExists)\n\t}\n\treturn nil", New: "\tm.content.LoadOrStore(key, value)\n\treturn nil", Expect: "C06.R2.refuse-before-mutate|(*~/internal/cas.Memory).Push|"},
+	{Name: "memory-loaded-error-not-wrapped", File: "internal/cas/memory.go", Old: "\tif _, exists := m.content.LoadOrStore(key, value); exists {\n\t\treturn fmt.Errorf(\"%s: %s: %w\", key.Digest, key.MediaType, errdef.ErrAlreadyExists)", New: "\tif _, exists := m.content.LoadOrStore(key, value); exists {\n\t\treturn fmt.Errorf(\"%s: %s: %v\", key.Digest, key.MediaType, errdef.ErrAlreadyExists)", Expect: "C06.R2.refuse-before-mutate|(*~/internal/cas.Memory).Push|loaded-branch-refuses"},
 	{Name: "memory-fast-check-returns-nil", File: "internal/cas/memory.go", Old: "\tif _, exists := m.content.Load(key); exists {\n\t\treturn fmt.Errorf(\"%s: %s: %w\", key.Digest, key.MediaType, errdef.ErrAlreadyExists)\n\t}\n\n\t// read and try", New: "\tif _, exists := m.content.Load(key); exists {\n\t\treturn nil\n\t}\n\n\t// read and try", Expect: "C06.R2.refuse-before-mutate|(*~/internal/cas.Memory).Push|fast-check-refuses"},
 	{Name: "oci-storage-no-existence-check", File: "content/oci/storage.go", Old: "\tif _, err := os.Stat(target); err == nil {\n\t\treturn fmt.Errorf(\"%s: %s: %w\", expected.Digest, expected.MediaType, errdef.ErrAlreadyExists)\n\t} else if !os.IsNotExist(err) {\n\t\treturn err\n\t}\n", New: "", Expect: "C06.R2.refuse-before-mutate|(*~/content/oci.Storage).Push|existing-blob-refused"},
 	{Name: "oci-storage-ingest-before-check", File: "content/oci/storage.go", Old: "\tif _, err := os.Stat(target); err == nil {\n\t\treturn fmt.Errorf(\"%s: %s: %w\", expected.Digest, expected.MediaType, errdef.ErrAlreadyExists)\n\t} else if !os.IsNotExist(err) {\n\t\treturn err\n\t}\n\n\tif err := ensureDir(filepath.Dir(target)); err != nil {\n\t\treturn err\n\t}\n\n\t// write the content to a temporary ingest file.\n\tingest, err := s.ingest(expected, content)\n\tif err != nil {\n\t\treturn err\n\t}\n", New: "\tif err := ensureDir(filepath.Dir(target)); err != nil {\n\t\treturn err\n\t}\n\n\t// write the content to a temporary ingest file.\n\tingest, err := s.ingest(expected, content)\n\tif err != nil {\n\t\treturn err\n\t}\n\tif _, err := os.Stat(target); err == nil {\n\t\treturn fmt.Errorf(\"%s: %s: %w\", expected.Digest, expected.MediaType, errdef.ErrAlreadyExists)\n\t} else if !os.IsNotExist(err) {\n\t\treturn err\n\t}\n", Expect: "C06.R2.refuse-before-mutate|(*~/content/oci.Storage).Push|effects-only-after-stat-miss"},
